@@ -233,7 +233,7 @@ def audit_props(prop, cfg):
         for a in names:
             if a not in allow and not any(a.startswith(p) for p in ("PrimInt63.", "PrimFloat.", "Uint63.", "FloatAxioms.", "PrimInt63", "Sint63.")):
                 problems.append(f"{name}: assumption {a} is not on the allow-list")
-        if cfg.get("axiom_free") and names:
+        if cfg.get("axiom_free") and names and name not in cfg.get("real_theorems", []):
             problems.append(f"{name}: expected to be axiom-free, depends on {names}")
     return theorems, axioms, problems
 
@@ -442,7 +442,10 @@ def main():
         for v in sr["violations"]:
             v = dict(v)
             v["profile"] = prof
-            failing.append(v)
+            if v.get("key") == "abort-unknown":
+                problems.append(f"search ({prof}): {v['what']}")
+            else:
+                failing.append(v)
         log(f"search[{prof}]: {sr['evaluations']} evaluations, {len(sr['violations'])} violations")
 
     # 5. verdict
